@@ -301,6 +301,35 @@ func main() {
 	}
 	sort.Slice(perms, func(i, j int) bool { return perms[i].name < perms[j].name })
 
+	// which redemption rule Undelegate uses: GetPoolCoins (amount*(1-slashed)) or GetRedeemPoolCoins (pro rata, rounded up)
+	proRata, foundRule := false, false
+	if uf, err := parser.ParseFile(fset, filepath.Join(*repo, "x", "multistaking", "keeper", "delegation.go"), nil, 0); err != nil {
+		bad("parse delegation.go: %v", err)
+	} else {
+		for _, d := range uf.Decls {
+			fd, ok := d.(*ast.FuncDecl)
+			if !ok || fd.Name.Name != "Undelegate" || fd.Body == nil {
+				continue
+			}
+			ast.Inspect(fd.Body, func(n ast.Node) bool {
+				if c, ok := n.(*ast.CallExpr); ok {
+					switch exprName(c.Fun) {
+					case "types.GetRedeemPoolCoins":
+						proRata, foundRule = true, true
+					case "types.GetPoolCoins":
+						if !foundRule {
+							foundRule = true
+						}
+					}
+				}
+				return true
+			})
+		}
+		if !foundRule {
+			bad("Undelegate calls neither types.GetPoolCoins nor types.GetRedeemPoolCoins")
+		}
+	}
+
 	var sb strings.Builder
 	sb.WriteString("(* GENERATED by harness/cmd/gen_mintburn4 from the source tree -- do not edit. *)\n")
 	sb.WriteString("From Sekai Require Import Base.Prelude.\nLocal Open Scope string_scope.\n\n")
@@ -325,7 +354,8 @@ func main() {
 			bad("maccPerms: unexpected permission %s of %s", o, p.name)
 		}
 	}
-	sb.WriteString("].\n\nDefinition mb_gen_errors : list string := [")
+	fmt.Fprintf(&sb, "].\n\n(* x/multistaking Undelegate burns shares pro rata (GetRedeemPoolCoins) instead of amount*(1-slashed) (GetPoolCoins) *)\nDefinition undelegate_pro_rata : bool := %v.\n", proRata)
+	sb.WriteString("\nDefinition mb_gen_errors : list string := [")
 	for i, e := range errs {
 		if i > 0 {
 			sb.WriteString("; ")
